@@ -126,13 +126,13 @@ DICT = ['json', 'yaml', 'msgpack']
 
 
 def bounds(tier):
-    return {'class_trees': len(trees(5 if tier == 'thorough' else 3)), 'max_classes': 5 if tier == 'thorough' else 3, 'positions': ['arg', 'return', 'array-pairs', 'field', 'customised', 'sequence'],
+    return {'class_trees': len(trees(5 if tier == 'thorough' else 4)), 'max_classes': 5 if tier == 'thorough' else 4, 'positions': ['arg', 'return', 'array-pairs', 'field', 'customised', 'sequence'],
             'protocols': XML + DICT, 'polymorphic': [True, False], 'client': 'loopback for the XML family'}
 
 
 def shards(tier):
     out = []
-    ts = trees(5 if tier == 'thorough' else 3)
+    ts = trees(5 if tier == 'thorough' else 4)
     for ti, pv in enumerate(ts):
         for d in range(len(pv)):
             for proto in XML + DICT:
